@@ -438,5 +438,37 @@ func runC05(c *Ctx) {
 			}
 		}
 	}
+	// many keys, then the first ones again (serial): whatever NewCipher remembers per key is bounded somewhere; the cipher
+	// it builds for a key seen thousands of keys ago must still be the cipher of that key
+	{
+		rk := c.Rng("many-keys")
+		nKeys := c.Q(3000, 80000)
+		keys := make([][]byte, nKeys)
+		blk := rk.Bytes(16)
+		check := func(i int, phase string) bool {
+			want := ref.SM4EncryptBlock(keys[i], blk, nil)
+			got := make([]byte, 16)
+			var err error
+			if pi := mon.Guard(func() {
+				var b cipher.Block
+				if b, err = sm4.NewCipher(keys[i]); err == nil {
+					b.Encrypt(got, blk)
+				}
+			}); pi != nil || err != nil || !bytes.Equal(got, want) {
+				rep.Violation("C05/NewCipher/many-keys/wrong-cipher/"+phase, fmt.Sprintf("key %d of %d: %v %v", i, nKeys, pi, err), map[string]interface{}{"key": mon.Hex(keys[i]), "block": mon.Hex(blk), "key_index": i, "keys_in_this_process": nKeys})
+				return false
+			}
+			return true
+		}
+		ok := true
+		for i := 0; i < nKeys && ok; i++ {
+			keys[i] = rk.Bytes(16)
+			ok = check(i, "first-use")
+		}
+		for i := 0; i < nKeys && ok; i += 1 + i/16 {
+			ok = check(i, "revisit-after-all-other-keys")
+		}
+		rep.Eval("many-keys/then-revisit")
+	}
 	rep.Exhaustive("key lengths 0..64 (random content, and per content alphabet); all 384 single-bit key/block patterns")
 }
